@@ -10,28 +10,27 @@ TECH = 'Coq theorem on executable model + differential correspondence with extra
 
 META = {
     'C01': dict(
-        text='Theorems Props.C01_curly and Props.C01_matcher (Coq, no axioms): for every regex oracle, table and request, if '
-             'the model of dispatch under CurlyRouter invokes route r then r is registered and, its template being one of the '
-             'documented forms, the request is admitted by the declaration (method, path template incl. regex variables, '
-             'suffix, custom verb, segment count / tail wildcard, Consumes, Produces, conditions); the token matcher decides '
-             'exactly structural admission. RouterJSR311: the same specification predicate (S.jsr_admits, extracted from Coq) '
-             'is evaluated on every route the real router invokes and the JSR311 model is compared with the implementation; '
-             'its Coq proof is not done yet (partial).',
+        text='Theorems Props.C01_curly, C01_matcher and C01_jsr (Coq, no axioms): for every regex oracle, table and request, under '
+             'CurlyRouter AND under RouterJSR311, if the router selects route r of service w then both are registered and the '
+             'request is admitted by r\'s declaration (method, full path template incl. regex variables, suffix, custom verb, segment '
+             'count / tail wildcard, Consumes, Produces, conditions); the route seen by filters and handler is the selected one. '
+             'RouterJSR311: proved for the segment-wise model of the compiled expressions, under the boolean premise that '
+             'path_expression.go\'s token classification is the structural reading of the templates (jsr_tokens_agree, evaluated on '
+             'every generated case).',
         design_ref='DESIGN.md section 6, C01', note=NOTE_ROUTING, technique=TECH),
     'C02': dict(
-        text='Theorems Props.C02_curly and Props.C02_detect (Coq, no axioms): under CurlyRouter, for every oracle, table and '
-             'request whose detected service uses the documented template forms, routing never panics and the outcome meets '
-             'the declarative cascade over the set of admitting routes (404 / 405 with exactly their methods / 415 / 406 / one '
-             'function of the surviving routes); detectRoute equals the cascade on any candidate list and the cascade is '
-             'order-independent (both routers share it). RouterJSR311: cascade evaluated on implementation outcomes with the '
-             'JSR311 admission predicate + model correspondence; Coq proof of the JSR311 matcher not done (partial). '
-             'Defects F5 and F6 were found by this check and repaired in /repo.',
+        text='Theorems Props.C02_curly, C02_detect, C02_jsr_no_panic (Coq, no axioms): under CurlyRouter routing never panics and the '
+             'outcome meets the declarative cascade over the set of admitting routes (404 / 405 with exactly their methods / 415 / '
+             '406 / one function of the surviving routes); detectRoute equals the cascade on any candidate list and is '
+             'order-independent (shared by both routers); under RouterJSR311 a selected route never makes parameter extraction '
+             'panic. The JSR311 cascade over the admitting SET is checked on implementation outcomes with the proved-sound '
+             'admission predicate (completeness of the JSR311 matcher is not proved). Defects F5, F6 found and repaired.',
         design_ref='DESIGN.md section 6, C02', note=NOTE_ROUTING, technique=TECH),
     'C04': dict(
-        text='Theorem Props.C04_curly (Coq, no axioms): under CurlyRouter the parameter map of an invoked route (documented '
-             'forms) is exactly the map of the structural bindings of root+route template on the path tokens (segment minus '
-             'verb/suffix; tail = remaining segments joined by "/"); extraction cannot panic on an admitted path. '
-             'RouterJSR311: S.jsr_route_bindings evaluated on the parameters real handlers see + model correspondence (partial).',
+        text='Theorems Props.C04_curly and C04_jsr (Coq, no axioms): under both routers the parameter map of an invoked route is '
+             'exactly the map of the structural bindings of root + route template on the path (segment minus verb/suffix; tail = '
+             'remaining text); extraction cannot panic on an admitted path. RouterJSR311 under the boolean premises '
+             'jsr_tokens_agree / jsr_names_agree (evaluated on every generated case).',
         design_ref='DESIGN.md section 6, C04', note=NOTE_ROUTING, technique=TECH),
     'C09': dict(
         text='Theorems Props.C09, C09_granted, C09_once (Coq, no axioms): for every oracle, configuration, set of routable '
@@ -71,10 +70,11 @@ META = {
              'not proved yet: only the shared detectRoute stage is (C18_shared_stage).',
         design_ref='DESIGN.md section 6, C18', note=NOTE_ROUTING, technique=TECH),
     'C14': dict(
-        text='Theorem Props.C14_curly (Coq, no axioms): under CurlyRouter, for every table, request and path p with a non-slash '
-             'byte, routing p and p + "/" gives the same outcome (invoked route, parameter values, error status, Allow list), by '
-             'tokenize (p ++ "/") = tokenize p. RouterJSR311 (templates without tail wildcard): paired dispatches on the '
-             'implementation compared with each other and with the model; Coq proof for JSR311 not done yet (partial).',
+        text='Theorems Props.C14_curly, C14_tokenize and C14_jsr (Coq, no axioms): under CurlyRouter, for every table, request and '
+             'path with a non-slash byte, and under RouterJSR311 for tables without tail wildcard whose regex variables do not '
+             'match the empty string (table_plain) and non-empty paths not ending in a slash: routing p and p + "/" gives the '
+             'same outcome (route function, parameter values, error status, Allow list). Paired dispatches on the implementation '
+             'are compared with each other and with the model.',
         design_ref='DESIGN.md section 6, C14', note=NOTE_ROUTING, technique=TECH),
     'C08': dict(
         text='Theorem Props.C08 (Coq, no axioms): for every ToLower oracle, CORS configuration, container method table, '
@@ -110,7 +110,7 @@ META.update({
              'Accept-Encoding mentions, on a writer without Content-Encoding, with encoding enabled (Dispatch: route over container). '
              'The full statement is refuted in Coq for ServeHTTP (C07_refuted_servehttp_route_off: known finding K-C07-1, replayed '
              'on the real code). PARTIAL: the codec contract is assumed; bodies are decoded with the real compress packages in the '
-             'differential run; Handle / HandleWithFilter are not in the model yet.',
+             'differential run. Handle / HandleWithFilter (plain handlers reached through ServeHTTP) are in the model and the domain.',
         design_ref='DESIGN.md section 6, C07', note=NOTE_DISP, technique=TECH),
     'C10': dict(
         text='Theorems Props.C10_no_escape, C10_once, C10_propagates, C10_ledger (Coq, no axioms): with recovery on no panic escapes '
@@ -153,8 +153,10 @@ META.update({
              'curly.go / jsr311.go into coq/gen/Generated_Locks.v and genprops/C12_generated.v re-proves lockset_ok of THAT table '
              '(generated_lockset_ok, generated_race_free). On the unrepaired tree this theorem failed with the offenders curly.go:49 '
              'and container.go:316/141; the race detector and the stress run reproduced races, wrong answers and panics (fixed: F2, '
-             'F3). PARTIAL: "answered by a state that existed during the request" and the frame clause are checked by the stress '
-             'classification (both routers, both entry points) and the race detector, not by a theorem; the translator, Go\'s memory '
+             'F3). Theorem C12_frame (both routers): the routing answer depends on the registration state only through the ordered roots and '
+             'the routes of the one service claiming the URL, so changes to other services cannot alter it. PARTIAL: "answered by a '
+             'state that existed during the request" rests on the lock table (selection reads under the read lock) and the stress '
+             'classification, not on a theorem about interleavings of the behavioural model; the translator, Go\'s memory '
              'model and sync.RWMutex are trusted.',
         design_ref='DESIGN.md section 6, C12',
         note='trusted: Coq kernel, translator cmd/xlate (fails closed), Go race detector, harness; lock semantics as written in Model.Conc',
